@@ -58,7 +58,7 @@ def elaborate(tree):
     import pyrtl
     pyrtl.reset_working_block()
     P = {n: pyrtl.Input(1, n) for n in ALL_PREDS}
-    used = sorted(set(tg for _, tg in assignments(tree)))
+    used = sorted(set(tg.rstrip('!') for _, tg in assignments(tree)))
     w = pyrtl.WireVector(W, 'w')
     wd = pyrtl.WireVector(W, 'wd')
     reg = pyrtl.Register(W, 'reg')
@@ -74,15 +74,16 @@ def elaborate(tree):
         nm = 'v%d' % k
         tags[(path, tg)] = nm
         vals[nm] = pyrtl.Input(W, nm)
-        if tg == 'mem' and k % 2 == 1:
+        if tg.rstrip('!') == 'mem' and k % 2 == 1:
             ens[nm] = pyrtl.Input(1, 'e%d' % k)      # this write carries its own enable
 
     def walk(nodes, path):
         for i, (pred, asg, children) in enumerate(nodes):
             ctx = pyrtl.otherwise if pred == 'O' else P[pred]
-            with ctx:
-                for tg in asg:
-                    v = vals[tags[(path + (i,), tg)]]
+            def assign(tgs):
+                for tg_ in tgs:
+                    v = vals[tags[(path + (i,), tg_)]]
+                    tg = tg_.rstrip('!')
                     if tg == 'w':
                         w.__ior__(v)
                     elif tg == 'wd':
@@ -92,12 +93,16 @@ def elaborate(tree):
                     elif tg == 'regd':
                         regd.next |= v
                     elif tg == 'mem':
-                        nm_ = tags[(path + (i,), tg)]
+                        nm_ = tags[(path + (i,), tg_)]
                         if nm_ in ens:
                             mem[maddr] |= pyrtl.MemBlock.EnabledWrite(v, ens[nm_])
                         else:
                             mem[maddr] |= v
+            with ctx:
+                # a target written 't!' is assigned AFTER the nested blocks of this branch
+                assign([t for t in asg if not t.endswith('!')])
                 walk(children, path + (i,))
+                assign([t for t in asg if t.endswith('!')])
     defaults = {}
     if 'wd' in used:
         defaults[wd] = dflt_w
@@ -137,8 +142,9 @@ def interp(o, tree, val, tags):
                 pv = val[pred] != 0
                 active = o.and_(enclosing, o.not_(taken), pv)
                 nxt = o.or_(taken, pv)
-            for tg in asg:
-                nm_ = tags[(path + (i,), tg)]
+            for tg_ in asg:
+                nm_ = tags[(path + (i,), tg_)]
+                tg = tg_.rstrip('!')
                 acts.setdefault(tg, []).append((active, val[nm_]))
                 if tg == 'mem':
                     en_name = 'e' + nm_[1:]
@@ -250,6 +256,10 @@ def handmade_trees():
         out.append([['p', [], [['q', [], [leaf('r', t1), leaf('O', t2)]],
                                ['s', [], [leaf('t', t1), leaf('r', t2)]]]],
                     ['O', [t2], [leaf('q', t1), leaf('r', t1)]]])
+        # an assignment placed after a nested block of the same branch (and nothing else in between)
+        out.append([['p', [t2 + '!'], [leaf('q', t1)]], ['r', [t1], []]])
+        out.append([['p', [t2 + '!'], [leaf('q', t1), leaf('O', t1)]], ['O', [t2 + '!'], [leaf('s', t1)]]])
+        out.append([['p', [], [['q', [t2 + '!'], [leaf('r', t1)]], leaf('s', t1)]]])
         # an otherwise inside the first member, then later top-level members
         out.append([['p', [t1], [leaf('q', t2), leaf('O', t2)]], ['r', [t1], []],
                     ['O', [], [leaf('s', t1), leaf('t', t2)]]])
